@@ -445,6 +445,26 @@ def replay_tables(i):
     x = dict(head=head, pressure=pressure, demand=demand, flow=flow, pstar=pstar, elev=elev, exp=exp, T=(T.diameter, T.max_level),
              TVmax=TV.max_level, pts=pts, eff=V.real('eff'), price=V.real('price'), pp_price=V.real('pp_price'), priced=priced, rt=V.int('report_timestep'), wn=wn)
     name = i['metric']
+    try:
+        res = _metric(name, wn, head, pressure, demand, flow, pstar, elev, exp, J, P)
+    except ArithmeticError as ex:
+        # the documented formula is defined for these inputs (its denominators are checked below): a division by zero inside the
+        # function means it divides by something else
+        o = _oracle_tables(x)[name]
+        if any(den != 0 for (num, den) in o.values()):
+            return '%s raised %s: %s although the documented formula is defined for these tables' % (name, type(ex).__name__, ex)
+        raise
+    o = _oracle_tables(x)[name]
+    for key, (num, den) in o.items():
+        if den == 0:
+            continue
+        got = float(_get(res, key))
+        if not close(got, num / den, 1e-7, 1e-9):
+            return '%s%r = %r, documented formula gives %r' % (name, key, got, num / den)
+    return None
+
+
+def _metric(name, wn, head, pressure, demand, flow, pstar, elev, exp, J, P):
     if name == 'todini':
         res = MH.todini_index(head, pressure, demand, flow, wn, pstar)
     elif name == 'mri_j':
@@ -465,14 +485,7 @@ def replay_tables(i):
         res = ME.pump_cost(ME.pump_energy(flow[P], head, wn), wn)
     else:
         raise ValueError(name)
-    o = _oracle_tables(x)[name]
-    for key, (num, den) in o.items():
-        if den == 0:
-            continue
-        got = float(_get(res, key))
-        if not close(got, num / den, 1e-7, 1e-9):
-            return '%s%r = %r, documented formula gives %r' % (name, key, got, num / den)
-    return None
+    return res
 
 
 # ------------------------------------------------------------------------------------------------
